@@ -382,10 +382,16 @@ def ex_trend(c):
     if c.get("intcoef"):          # a callable written with integer coefficients: c0 + c1*t + c2*t*t evaluated on whatever t it is handed
         i0, i1, i2 = (int(r[0]) for r in c["c"])
         f = lambda t: i0 + i1 * t + i2 * t * t
+    if c.get("form") == "dot":    # coefficient form with a reduction: one number per call, whatever it is handed
+        cv = np.array([fl(v) for v in c["c"]])
+        f = lambda t: np.dot(cv, t ** np.arange(3))
     seen = []
 
     def rec(t):
-        seen.append(float(t))
+        if np.ndim(t) == 0:
+            seen.append(float(t))
+        else:                     # handed a whole axis: recorded as such (the clause on the arguments then fails unless it is one sample)
+            seen.extend(float(v) for v in np.ravel(t))
         return f(t)
     dflt = (not c["normalized"]) and len(c["x"]) % 2 == 0      # documented default of `normalized` left implicit in half of the calls
     oc, o = guarded(lambda: proc.trend(xc, yc, rec) if dflt else proc.trend(xc, yc, rec, c["normalized"]))
@@ -1236,8 +1242,13 @@ def ex_smooth(c):
             if fv2.shape == fv.shape and np.all(np.isfinite(fv2)):
                 fv = np.where(np.abs(fv2 - y0) > np.abs(fv - y0), fv2, fv)      # record the worse of the two answers per sample
             fs = proc.spline_smooth(x0, y0, s)(x0)
-            warned[0] = any("splrep" in str(r.message).lower() or "fitpack" in str(r.message).lower() or "s too small" in str(r.message).lower()
-                            or issubclass(r.category, RuntimeWarning) for r in rec)
+            # FITPACK's non-convergence reports (RuntimeWarnings raised by scipy's splrep: "... smoothing spline with fp = s ...", "... maximal
+            # number of iterations ...", "... storage space ...", "s too small"); NumPy's own arithmetic warnings (divide by zero, invalid value)
+            # are NOT reports of the solver and do not discard a run (seed C16l: an infinite weight for a constant series)
+            def fitpack_report(r):
+                m_ = str(r.message).lower()
+                return any(t in m_ for t in ("splrep", "fitpack", "s too small", "smoothing spline", "iterations", "storage space", "knots", "fp ="))
+            warned[0] = any(fitpack_report(r) for r in rec)
         return np.asarray(gx), np.asarray(gy, dtype=float), np.asarray(w2.get()[1], dtype=float), np.asarray(w3.get()[1], dtype=float), fv, np.asarray(fs, dtype=float)
     try:
         gx, gy, gnone, gdef, fv, fs = run()
